@@ -59,7 +59,7 @@ class NumpyOrSetEncoder(json.JSONEncoder):
         if isinstance(obj, (np.int32, np.int64)):
             return int(obj)
         if isinstance(obj, (np.float32, np.float64, np.float128)):
-            return int(obj)
+            return float(obj)
 
         # Case for built-in Python sets
         if isinstance(obj, set):
